@@ -96,7 +96,16 @@ def _shard(args):
 
     prop = importlib.import_module(f"props.{prop_name}")
     opens = open_findings(prop.ID)
+    from . import prelude
+
+    pre_kind = prelude.kind_for(seed, shard)
+    pre_error = None
+    try:
+        prelude.run(pre_kind)  # the first JASM operation of this fresh process (vlib/prelude.py); must be invisible by C14
+    except BaseException as exc:  # noqa: BLE001
+        pre_error = "prelude %s: %r" % (pre_kind, exc)
     st = {
+        "prelude": pre_kind,
         "evaluations": 0,
         "subcases": 0,
         "tags": Counter(),
@@ -106,7 +115,7 @@ def _shard(args):
         "excluded_known": Counter(),
         "samples": {},
         "violation": None,
-        "error": None,
+        "error": pre_error,
         "shrink_calls": 0,
     }
     failing = {}  # case hash -> (size, case, deviation)
@@ -172,7 +181,7 @@ def _shard(args):
             st["error"] = "".join(traceback.format_exception(type(exc), exc, exc.__traceback__))[-4000:]
     if failing:
         size, case, dev = min(failing.values(), key=lambda t: t[0])
-        st["violation"] = {"case": case, "deviation": dev}
+        st["violation"] = {"case": case, "deviation": dict(dev, shard_prelude=pre_kind) if pre_kind != "none" else dev}
     st["tags"] = dict(st["tags"])
     st["excluded_known"] = dict(st["excluded_known"])
     return st
@@ -198,8 +207,10 @@ class Report:
         self.extra = {}
         self.exhaustive_parts = []
         self.campaign_evaluations = 0  # Hypothesis cases only: the base of the class-floor fractions
+        self.preludes = Counter()  # prelude kind -> number of shards that started with it
 
     def merge_shard(self, st):
+        self.preludes[st.get("prelude", "none")] += 1
         self.evaluations += st["evaluations"]
         self.campaign_evaluations += st["evaluations"]
         self.subcases += st["subcases"]
@@ -241,7 +252,8 @@ def write_replay(prop_id, case, deviation, seed, tier):
     path = os.path.join(d, hexdigest(case) + ".json")
     rel = os.path.relpath(path, env.VERIF)
     with open(path, "w") as f:
-        json.dump({"property": prop_id, "tier": tier, "seed": seed, "case": case, "deviation": deviation}, f, indent=1, default=str)  # key order is part of a case (YAML mappings are ordered)
+        # "prelude": the first operation of the process in which the case failed (vlib/prelude.py); replays run it first
+        json.dump({"property": prop_id, "tier": tier, "seed": seed, "prelude": (deviation or {}).get("shard_prelude", "none"), "case": case, "deviation": deviation}, f, indent=1, default=str)  # key order is part of a case (YAML mappings are ordered)
     return rel
 
 
@@ -274,21 +286,68 @@ def _replay_known(prop, rep):
                 break
 
 
-def _replay_corpus(prop, rep):
-    d = os.path.join(env.VERIF, "corpus", prop.ID)
-    n = 0
+def _corpus_files(prop_id):
+    """-> (files replayed together, files that need a process of their own because they start with a prelude)"""
+    d = os.path.join(env.VERIF, "corpus", prop_id)
+    bulk, alone = [], []
     if os.path.isdir(d):
-        opens = open_findings(prop.ID)
         for fn in sorted(os.listdir(d)):
-            if not fn.endswith(".json"):
-                continue
-            with open(os.path.join(d, fn)) as f:
-                obj = json.load(f)
-            case = obj["case"] if isinstance(obj, dict) and "case" in obj else obj
-            ev = prop.evaluate(case)
-            rep.add_eval(case, ev, opens)
-            n += 1
+            if fn.endswith(".json"):
+                with open(os.path.join(d, fn)) as f:
+                    obj = json.load(f)
+                (alone if isinstance(obj, dict) and obj.get("prelude", "none") != "none" else bulk).append(fn)
+    return bulk, alone
+
+
+def _replay_corpus(prop, rep, files):
+    d = os.path.join(env.VERIF, "corpus", prop.ID)
+    opens = open_findings(prop.ID)
+    n = 0
+    for fn in files:
+        with open(os.path.join(d, fn)) as f:
+            obj = json.load(f)
+        case = obj["case"] if isinstance(obj, dict) and "case" in obj else obj
+        if isinstance(obj, dict) and obj.get("prelude", "none") != "none":
+            from . import prelude
+
+            prelude.run(obj["prelude"])
+        ev = prop.evaluate(case)
+        rep.add_eval(case, ev, opens)
+        n += 1
     rep.extra["corpus_replayed"] = n
+
+
+def _replays_worker(args):
+    prop_name, tier, seed, known, files = args
+    import importlib
+
+    prop = importlib.import_module(f"props.{prop_name}")
+    sub = Report(prop, tier, seed)
+    if known:
+        _replay_known(prop, sub)
+    _replay_corpus(prop, sub, files)
+    return {"evaluations": sub.evaluations, "subcases": sub.subcases, "tags": dict(sub.tags), "hashes": sub.hashes, "inconclusive": sub.inconclusive,
+            "excluded": dict(sub.excluded), "violations": sub.violations, "known_lines": sub.known_lines, "extra": sub.extra}
+
+
+def _replays_in_child(prop_name, rep):
+    """Witness and corpus replays run in a child: the parent stays a process that never ran JASM, so every shard (and
+    every process a property forks later) starts from a genuinely fresh state."""
+    bulk, alone = _corpus_files(rep.prop.ID)
+    tasks = [(prop_name, rep.tier, rep.seed, True, bulk)] + [(prop_name, rep.tier, rep.seed, False, [fn]) for fn in alone]
+    replayed = 0
+    with mp.get_context("fork").Pool(min(16, len(tasks)), maxtasksperchild=1) as pool:
+        for r in pool.imap(_replays_worker, tasks, chunksize=1):
+            rep.evaluations += r["evaluations"]
+            rep.subcases += r["subcases"]
+            rep.tags.update(r["tags"])
+            rep.hashes |= r["hashes"]
+            rep.inconclusive += r["inconclusive"]
+            rep.excluded.update(r["excluded"])
+            rep.violations.extend(r["violations"])
+            rep.known_lines.extend(r["known_lines"])
+            replayed += r["extra"].get("corpus_replayed", 0)
+    rep.extra["corpus_replayed"] = replayed
 
 
 def run_property(prop_name, tier, replay=None):
@@ -305,6 +364,10 @@ def run_property(prop_name, tier, replay=None):
         case = obj["case"] if isinstance(obj, dict) and "case" in obj else obj
         if isinstance(obj, dict) and "seed" in obj:
             os.environ["VERIF_SEED"] = str(obj["seed"])  # some checks derive shared inputs (e.g. the C14 pool) from the seed
+        if isinstance(obj, dict) and obj.get("prelude", "none") != "none":
+            from . import prelude
+
+            prelude.run(obj["prelude"])
         ev = prop.evaluate(case)
         opens = open_findings(prop.ID)
         bad = [d for d in ev.deviations if classify_known(prop, case, d, opens) is None]
@@ -320,16 +383,16 @@ def run_property(prop_name, tier, replay=None):
     try:
         if hasattr(prop, "prepare"):
             prop.prepare(tier, seed)  # parent-only work that must be finished before any shard starts (shared immutable inputs)
-        _replay_known(prop, rep)
-        _replay_corpus(prop, rep)
+        _replays_in_child(prop_name, rep)
         budget = prop.budget(tier)
         total = int(budget["cases"])
         nshards = int(budget.get("shards", min(16, os.cpu_count() or 1)))
         nshards = max(1, min(nshards, total))
         per = [total // nshards + (1 if i < total % nshards else 0) for i in range(nshards)]
         ctx = mp.get_context("fork")
-        with ctx.Pool(nshards) as pool:
-            for st in pool.imap_unordered(_shard, [(prop_name, tier, seed, i, nshards, per[i]) for i in range(nshards)]):
+        # one fresh process per shard (its first JASM operation is the shard's prelude)
+        with ctx.Pool(nshards, maxtasksperchild=1) as pool:
+            for st in pool.imap_unordered(_shard, [(prop_name, tier, seed, i, nshards, per[i]) for i in range(nshards)], chunksize=1):
                 rep.merge_shard(st)
         if hasattr(prop, "extra"):
             prop.extra(tier, seed, rep)
@@ -376,6 +439,7 @@ def finish(prop, rep):
         "known_findings_reported": rep.known_lines,
         "exhaustive": bool(rep.exhaustive_parts) and getattr(prop, "ALL_EXHAUSTIVE", False),
         "exhaustive_parts": rep.exhaustive_parts,
+        "shard_preludes": dict(rep.preludes),
         "repo": env.repo_state(),
     }
     coverage.update(rep.extra)
